@@ -412,6 +412,23 @@ func (s *GenSpec) Build(env *BuildEnv) *rapid.Generator[any] {
 	case "custom":
 		subs := map[*GenSpec]*rapid.Generator[any]{}
 		collectDrawGens(s.Body, env, subs)
+		if env.X == nil {
+			// no interpreter (concurrent use): the function only draws
+			var draws []*Stmt
+			for _, st := range allStmts(s.Body) {
+				if st.Op == "draw" {
+					draws = append(draws, st)
+				}
+			}
+			return rapid.Custom(func(t *rapid.T) any {
+				cv := CustomVal{}
+				for _, st := range draws {
+					cv.Specs = append(cv.Specs, st.Gen)
+					cv.Vals = append(cv.Vals, subs[st.Gen].Draw(t, st.Label))
+				}
+				return cv
+			})
+		}
 		return rapid.Custom(func(t *rapid.T) any {
 			return env.X.runCustom(s, subs, t)
 		})
